@@ -61,6 +61,11 @@ def doNonProg (udp : Bool) (epKey epLimit limit k : Nat) : List Act :=
   [.startCall k 30000] ++ limiterPart udp "LimitParallelRequests.Do" epKey epLimit limit ++ [.send k] ++
   rep (preceded "Conn.doInternal" "select") ++ [.wait (.delivered k) (wakesOnClose "Conn.doInternal")] ++ [.endCall k]
 
+/-- one-way confirmable `WriteMessage`: on the datagram transport it waits for the ACK in `waitForAcknowledge` (the ACK is read by the
+    socket reader, no loop is needed to complete it); on the stream transport it returns at once -/
+def writeProg (udp : Bool) (k : Nat) : List Act :=
+  [.startCall k 30000, .send k] ++ ackPart udp k ++ [.endCall k]
+
 /-- application code that takes `ms` without touching the connection (a blocking wait nobody asked a replacement for, which
     nothing but the clock ends): exchange `sleepBase + ms` is never sent, so it is never delivered -/
 def sleepBase : Nat := 50000
